@@ -22,6 +22,20 @@
 (*          index of severity+text in the family's text table             *)
 (*   btx    tag -> tx of that fault's message in the family's base layout  *)
 (*   bcol   tag -> column reported for it in the base layout               *)
+(*   flen   name -> number of lines, for every file present on disk        *)
+(*   order  the tags of obs in the order of generation (message serials)   *)
+(*   reps   the REPORTS printed in the styles that show the source, each    *)
+(*          [sort, preview, pre, groups]: sort = messages sorted (not       *)
+(*          -Mno-sort), preview = -Mpreview, pre = the groups printed as    *)
+(*          previews, groups = the final report.  A group is                *)
+(*          [head, file, line, echo, src, align, carets, leads]: head = a   *)
+(*          `"file", line N:' heading was printed, echo = index of the      *)
+(*          source text shown (0 = nothing visible), src = index of the     *)
+(*          text line N of that file really has on disk (0 = no such line   *)
+(*          or an empty one),                                               *)
+(*          align = the caret line starts under the echoed text, carets =   *)
+(*          columns of the `^' marks relative to the echoed text, leads =   *)
+(*          [mk, ln, col] of the `[Ln Cm]' leads under the heading.         *)
 (*                                                                         *)
 (* For every case the Include machine is run over the files (one step per  *)
 (* item), which yields the table and the remembered planted positions.     *)
@@ -35,7 +49,7 @@
 (* case) and with the code as written (a violation that matches it exactly *)
 (* is the documented defect, anything else is new).                        *)
 (***************************************************************************)
-EXTENDS Include, Json, IOUtils
+EXTENDS Report, Json, IOUtils
 
 Trc == ndJsonDeserialize(IOEnv.TRACE)
 
@@ -100,12 +114,63 @@ Matches ==
   /\ \A j \in ObsIx : \E i \in 1..Len(Planted) : Obs[j].mk = Planted[i].id
   /\ \A i, j \in 1..Len(Planted) : i # j => Planted[i].id # Planted[j].id
 
+----------------------------------------------------------------------------
+(* The report (spec/Report.tla) the configuration's design prints for the   *)
+(* planted messages in the observed order of generation.                    *)
+FLenT(f)    == IF f \in DOMAIN Case.flen THEN Case.flen[f] ELSE 0
+WitOf(id)   == LET s == SelectSeq(Planted, LAMBDA w : w.id = id) IN s[1]
+Msgs        == [i \in 1..Len(Case.order) |->
+                  LET w == WitOf(Case.order[i]) IN
+                  [p |-> Pack(Packer, w.g, w.c), tx |-> Case.btx[w.id], id |-> w.id, c |-> w.c]]
+Intended    == [i \in 1..Len(Case.order) |->
+                  LET w == WitOf(Case.order[i]) IN
+                  [g |-> w.g, rf |-> w.rf, rl |-> w.rl, c |-> w.c, tx |-> Case.btx[w.id], id |-> w.id]]
+\* the column shown for a message (cf. Agrees)
+ColT(m) == IF m.c <= MaxCol \/ Packer # "required" THEN SposChar(m.p) ELSE Case.bcol[m.id]
+
+GroupAgrees(o, e) ==
+  /\ o.head = e.head /\ o.file = e.file /\ o.line = e.line
+  /\ e.echo # 0 => e.echo = o.line                      \* the design shows the line the heading names, or none
+  /\ o.echo = (IF e.echo # 0 THEN o.src ELSE 0)         \* what is shown is the text of THAT line of THAT file
+  /\ o.align
+  /\ Len(o.carets) = Len(e.carets) /\ \A j \in 1..Len(e.carets) : o.carets[j] = e.carets[j]
+  /\ Len(o.leads) = Len(e.leads)
+  /\ \A j \in 1..Len(e.leads) :
+        o.leads[j].mk = e.leads[j].id /\ o.leads[j].ln = e.leads[j].ln /\ o.leads[j].col = e.leads[j].col
+
+GroupsAgree(os, es) == Len(os) = Len(es) /\ \A i \in 1..Len(es) : GroupAgrees(os[i], es[i])
+
+\* one run of the compiler: the previews (if any), then the report, with one line cache
+RepAgrees(r) ==
+  LET pv == IF r.preview THEN Preview(T, Msgs, FLenT, ColT, CacheInit) ELSE [cs |-> CacheInit, out |-> << >>] IN
+  /\ GroupsAgree(r.pre, pv.out)
+  /\ GroupsAgree(r.groups, Report(T, Msgs, r.sort, FLenT, ColT, pv.cs).out)
+
+\* evaluated only when the messages themselves are the planted ones (Matches)
+RepMatches == Matches => \A k \in 1..Len(Case.reps) : RepAgrees(Case.reps[k])
+
+\* the design's report is the required one (ReportFaithful on this case)
+RepFaithful ==
+  Matches => \A sort \in BOOLEAN :
+     Report(T, Msgs, sort, FLenT, LAMBDA m : SposChar(m.p), CacheInit).out =
+        ReqReport(Intended, sort, FLenT, LAMBDA w : ColFun(Packer, w.c))
+
+\* groups of the design's sorted report that name no file although their position is an ordinary one
+NoHead == IF Matches
+          THEN LET rep == Report(T, Msgs, TRUE, FLenT, ColT, CacheInit).out IN
+               Cardinality({i \in 1..Len(rep) : ~rep[i].head /\ rep[i].leads[1].ln # -1})
+          ELSE 0
+
 \* planted positions the configuration's own design does not report faithfully
 Unfaithful == SelectSeq(Planted, LAMBDA w : ~(Representable(w) /\ Faithful(T, At(w, w.c), Packer)))
 
 Verdict ==
   [id      |-> Case.id,
    match   |-> Matches,
+   rmatch  |-> RepMatches,
+   rfaith  |-> RepFaithful,
+   nohead  |-> NoHead,
+   report  |-> IF Matches THEN Report(T, Msgs, TRUE, FLenT, ColT, CacheInit).out ELSE << >>,
    nplanted |-> Len(Planted),
    nobs    |-> Len(Obs),
    expect  |-> [i \in 1..Len(Planted) |->
